@@ -1,0 +1,35 @@
+//go:build verif
+
+// Contracts for the deductive verifier in /verif (comment-only file; it
+// contributes no code to any build). Syntax: see /verif/DESIGN.md.
+//
+// Property C11 (the repair half): the local replicator copies every object it
+// is asked to copy — each digest of the set is read from the source and
+// written to the sink, in order, under its own name — and reports the first
+// failure of the sink; it does not report success for a set it has only
+// partly copied.
+package replication
+
+//@ func (*localBlobReplicator).ReplicateMultiple
+//@   requires br.source != nil && br.sink != nil && br.source != br.sink
+//@   ensures [every-object-copied] result == nil ==> baCalls(br.sink) == old(baCalls(br.sink)) + len(digests.digests)
+//@         && baGets(br.source) == old(baGets(br.source)) + len(digests.digests)
+//@   ensures [failure-is-the-sinks] result != nil ==> baPutErr(br.sink) != nil && baCalls(br.sink) <= old(baCalls(br.sink)) + len(digests.digests)
+//@   loop 0 invariant -1 <= rangeindex && rangeindex < len(digests.digests) && unchanged(br.source) && unchanged(br.sink)
+//@   loop 0 invariant baCalls(br.sink) == old(baCalls(br.sink)) + rangeindex + 1 && baGets(br.source) == old(baGets(br.source)) + rangeindex + 1
+//@   loop 0 invariant [copied-under-its-own-name] rangeindex >= 0 && rangeindex < len(digests.digests) ==>
+//@         baDigest(br.sink) == digests.digests[rangeindex].value && baDigest(br.source) == digests.digests[rangeindex].value
+
+// ReplicateSingle reads the object once from the source and hands one of the
+// two clones to the consumer; ReplicateComposite first copies the parent and
+// serves the child from the sink only if that succeeded.
+//@ func (*localBlobReplicator).ReplicateComposite
+//@   requires br.source != nil && br.sink != nil && br.source != br.sink
+//@   ensures result != nil
+//@ func (*localBlobReplicator).ReplicateSingle
+//@   requires br.source != nil && br.sink != nil && br.source != br.sink
+//@   ensures [read-once-from-the-source] result != nil && baGets(br.source) == old(baGets(br.source)) + 1 && baDigest(br.source) == digest.value
+//@ func (*localBlobReplicator).ReplicateSingle$1
+//@   requires br.sink != nil && b2 != nil
+//@   ensures [written-to-the-sink-under-its-name] baCalls(br.sink) == old(baCalls(br.sink)) + 1 && baDigest(br.sink) == digest.value
+//@   ensures [sinks-failure-reported] (result == nil) <==> (baPutErr(br.sink) == nil)
